@@ -35,6 +35,14 @@ prop("C16", [
                  "deplete is evaluated at the same clock reading as the check that granted it (single task; read-then-write race not modelled)"])
 
 
+prop("C05", [
+    dict(engine="verus", unit="dnsparse"),
+    dict(engine="verus", unit="pktbuf"),
+    dict(engine="verus", unit="dhcpparse"),
+    dict(engine="kani", sets=["net_subnet"]),
+], explanation="no-panic / no-overflow / in-bounds / termination of the network-facing decoders for all byte strings of all lengths",
+    assumptions=["async handlers are verified as a single task; process-level liveness ('still answers the next request') is not decided, only its in-process cause (a panic)"])
+
 prop("C07", [
     dict(engine="kani", sets=["net_addr", "net_udp_addr"]),
 ], explanation="narrow clause of C07: source-address control message carries the receiving address (all 2^32/2^128 addresses)")
